@@ -36,10 +36,30 @@ def gen_reuse(rng, k):
     return L
 
 
+def gen_holes(rng, k):
+    """after a loss-free start (the window has grown) two or three NON-adjacent segments of one flight are
+    dropped, so that the reader's reorder buffer holds segments with holes between them when the head-of-line
+    segment is re-sent; the writer then closes (the EOF must come after everything)"""
+    from .ncommon import Net, A1
+    r = rng
+    drops = [0] * r.choice([4, 6, 8, 11]) + r.choice([[1, 0, 1], [1, 0, 0, 1], [1, 0, 1, 0, 1], [1, 1, 0, 1]]) + [0] * 40
+    net = Net(r, nnodes=2, lossy=drops, bw=r.choice([0, 800000, 50000000]), lat=r.choice([1000000, 30000000]))
+    L = net.lines
+    seg = r.choice([1475, 1475, 700])
+    n = r.choice([12, 20, 30])
+    L += ["M acc_new 1 1", "M tcp_open 1 1", "M tcp_bind 1 0 0 1337", "M listen 1 10", "M tcp_new 2 1", "M tcp_new 3 2",
+          "M accept 1 2 0 10", "M tcp_connect 3 0 %d 1337 11" % A1,
+          "H 11 tcp_write_all 3 %d %d %d 12" % (r.randrange(1000), n * seg, r.choice([1048576, seg, 3 * seg])),
+          "H 12 expires_after 5 %d" % r.choice([0, 1000000000]), "H 12 async_wait 5 14", "H 14 tcp_close 3",
+          "H 10 tcp_read_loop 2 %d 13" % r.choice([4096, 7, 1475, 65536]), "M run"]
+    return L
+
+
 def generate(rng, tier):
     base = tcommon.generate_flavour("loss")(rng, tier)
     n = 25 if tier == "quick" else 600
-    return base + [("reuse%d" % k, gen_reuse(rng, k)) for k in range(n)]
+    nh = 25 if tier == "quick" else 600
+    return base + [("reuse%d" % k, gen_reuse(rng, k)) for k in range(n)] + [("holes%d" % k, gen_holes(rng, k)) for k in range(nh)]
 classify = tcommon.classify
 nontrivial = tcommon.nontrivial
 
@@ -49,6 +69,30 @@ def oracle(lines, trace):
     if bad:
         return [("c05/crash", bad)]
     fails = []
+    # the holes scenario logs the bytes themselves: they must be an exact prefix of what was written,
+    # and an EOF is the last thing the reader sees
+    for l in lines:
+        t = l.split()
+        if t[:4] == ["H", "10", "tcp_read_loop", "2"]:
+            w = [x.split() for x in lines if x.startswith("H 11 tcp_write_all 3 ")][0]
+            seed, total = int(w[4]), int(w[5])
+            exp = bytes(pat(seed, total))
+            got = b""
+            eof = False
+            for (tt, tag, f) in parse_trace(trace):
+                if tag == 1 and f[0] == 13:
+                    if eof:
+                        fails.append(("c05/after-eof", "a read completed after EOF had been delivered"))
+                    if f[1] == 0:
+                        got += bytes(f[5:5 + f[2]])
+                    elif f[1] == 2:
+                        eof = True
+            if not exp.startswith(got):
+                k = next(i for i in range(len(got)) if i >= len(exp) or exp[i] != got[i])
+                fails.append(("c05/not-a-prefix", "the reader was handed %d bytes that are not a prefix of the %d written: first difference at offset %d" % (len(got), total, k)))
+            elif eof and got != exp:
+                fails.append(("c05/eof-early", "EOF after %d of the %d bytes written before the close" % (len(got), total)))
+            return fails
     # composed transfers: a read-all that ended with EOF must have received exactly a prefix
     # (here: the whole) of what the peer's write-all reported, with the same digest
     walls = {}
